@@ -142,6 +142,25 @@ BYTES_LITS = ["b''", "b'ab'", 'b"it\'s"', "b'q\"q'", "b'\\x00\\xff'", "b'a=\\'b'
 NUM_LITS = ["0", "1", "2", "42", "10**2", "3.14", "1e10", "1e999", "2j", "0x1f", "1_000", "0.0", "7"]
 
 
+# Valid expressions on which CPython has a remark (a SyntaxWarning): from the tokenizer, hence already in `ast.parse` — an
+# escape sequence unknown to Python in a non-raw literal, a number glued to a keyword — or from the compiler only (`is`
+# with a literal, a literal that is called or subscripted, a missing comma). They are programs like the others: the
+# harness never turns a warning into an error; it silences them (below), since the generated programs are not to be fixed.
+WARN_EXPRS = ['"\\d+"', "'C:\\path'", 'b"\\q"', 'f"\\d{x}"', '"\\("', "'\\.\\w+$'", "(1if x else 2)", "[1for x in y]",
+              "(0x1if x else 2)", "(x is 1)", '(x is not "a")', '"a"()', "1[0]", "[[1, 2] [3]]", "[(1, 2) (3)]"]
+WARN_STMTS = ['assert (x, "msg")', 'import re\nm = re.findall("\\d+", text)', "path = 'C:\\path\\to'"]
+WARN_SEEDS = [
+    'import re\nm = re.findall("\\d+", text)\n',
+    "x = 1if y else 2\n",
+    "def f(p='C:\\path'):\n    return b\"\\q\"\n",
+    'if x is 1:\n    assert (x, "msg")\n',
+    's = f"\\d{x}"\nt = [0x1for z in s]\n',
+]
+import warnings  # noqa: E402
+
+warnings.filterwarnings("ignore", category=SyntaxWarning)
+
+
 class Gen:
     """Random mostly-valid programs. `adv` = probability of drawing from the adversarial pools."""
 
@@ -167,6 +186,8 @@ class Gen:
 
     def atom(self):
         p = self.r.random()
+        if p < 0.03:
+            return self.r.choice(WARN_EXPRS)
         if p < 0.35:
             return self.ident()
         if p < 0.55:
